@@ -182,7 +182,7 @@ def worker_setup(obs):
     import sys  # noqa: PLC0415
     import tempfile  # noqa: PLC0415
 
-    _EP_DIR = tempfile.mkdtemp(prefix="verif_c19_")
+    _EP_DIR = tempfile.mkdtemp(prefix="verif_c19_", dir=("/dev/shm" if os.path.isdir("/dev/shm") else None))
     atexit.register(shutil.rmtree, _EP_DIR, ignore_errors=True)
     with open(os.path.join(_EP_DIR, "verif_c19_plugins.py"), "w") as fh:
         fh.write(_EP_MODULE)
@@ -193,6 +193,14 @@ def worker_setup(obs):
     with open(os.path.join(di, "entry_points.txt"), "w") as fh:
         fh.write("[ropt.plugins.optimizer]\nMyOpt = verif_c19_plugins:EPOptimizerPlugin\n\n[ropt.plugins.sampler]\nMySampler = verif_c19_plugins:EPSamplerPlugin\n")
     sys.path.insert(0, _EP_DIR)
+
+
+def worker_teardown(obs):
+    """(atexit handlers do not run in the workers: the scratch distribution is removed here)"""
+    import shutil  # noqa: PLC0415
+
+    if _EP_DIR is not None:
+        shutil.rmtree(_EP_DIR, ignore_errors=True)
 
 
 def _entry_point_plugins(obs):
